@@ -564,6 +564,7 @@ func c15Scenarios(c *fw.Ctx) []c15Params {
 }
 
 func c15Run(c *fw.Ctx) {
+	defer c15RunProvider(c)
 	for _, p := range c15Scenarios(c) {
 		p := p
 		drive(c, p.Name, p.Bound, func(x *explore.Exec, owned bool) {
